@@ -1,0 +1,87 @@
+//go:build verif
+
+// Machine-checked contracts (comment-only; compiled only under the build tag "verif").
+package deployment
+
+//@ define sumReplicas(s) = sum(k, len(s), ite(s[k] == nil, 0, *s[k].Spec.Replicas))
+//@ define sumAvailable(s) = sum(k, len(s), ite(s[k] == nil, 0, s[k].Status.AvailableReplicas))
+//@ define wfRSs(s) = forall k :: 0 <= k && k < len(s) ==> s[k] != nil && s[k].Spec.Replicas != nil
+//@ define R(d) = *d.Spec.Replicas
+//@ define oldLimit(oldRSs, newRS, d, p) = sumReplicas(oldRSs) - (R(d) - imax(rsLimit(p, R(d)), *newRS.Spec.Replicas))
+
+// ghost accumulators maintained by every call of the scale primitive:
+//   $scaledDown: total decrease of spec.replicas requested; $availRemoved: how many of those were (reported) available pods
+//@ func (*DeploymentController).scaleReplicaSetAndRecordEvent
+//@ props C17
+//@ effect $scaledDown += ite(result2 == nil, *rs.Spec.Replicas - newScale, 0)
+//@ effect $availRemoved += ite(result2 == nil, imax(0, rs.Status.AvailableReplicas - newScale), 0)
+//@ effect $scaleCalls += 1
+//@ requires dc != nil && rs != nil && rs.Spec.Replicas != nil && deployment != nil && deployment.Spec.Replicas != nil
+//@ ensures returns_object: result2 == nil ==> result1 != nil && result1.Spec.Replicas != nil
+
+//@ func (*DeploymentController).scaleReplicaSet
+//@ props C17
+//@ requires dc != nil && rs != nil && rs.Spec.Replicas != nil && deployment != nil && deployment.Spec.Replicas != nil
+//@ ensures returns_object: result2 == nil ==> result1 != nil && result1.Spec.Replicas != nil
+
+//@ extern k8s.io/client-go/kubernetes/typed/apps/v1.(ReplicaSetInterface).Update
+//@ ensures result1 == nil ==> result0 != nil && result0.Spec.Replicas != nil
+
+//@ func ScaleDownLimitForOld
+//@ props C17
+//@ requires newRS != nil && newRS.Spec.Replicas != nil && deployment != nil && deployment.Spec.Replicas != nil
+//@ requires forall k :: 0 <= k && k < len(oldRSs) && oldRSs[k] != nil ==> oldRSs[k].Spec.Replicas != nil
+//@ ensures result == oldLimit(oldRSs, newRS, deployment, partition)
+//@ pure
+
+//@ func (*DeploymentController).cleanupUnhealthyReplicas
+//@ props C17
+//@ requires dc != nil && deployment != nil && deployment.Spec.Replicas != nil && wfRSs(oldRSs)
+//@ ensures accounted: result2 == nil ==> $scaledDown - old($scaledDown) == result1
+//@ ensures within_budget: $scaledDown - old($scaledDown) <= imax(maxCleanupCount, 0) && $scaledDown - old($scaledDown) >= 0
+//@ ensures only_unavailable: $availRemoved == old($availRemoved)
+//@ loop 1 invariant -1 <= rangeindex && rangeindex < len(oldRSs)
+//@ loop 1 invariant totalScaledDown == $scaledDown - atloop($scaledDown) && 0 <= totalScaledDown && totalScaledDown <= imax(maxCleanupCount, 0)
+//@ loop 1 invariant $availRemoved == atloop($availRemoved)
+//@ loop 1 invariant wfRSs(oldRSs)
+
+//@ func (*DeploymentController).scaleDownOldReplicaSetsForRollingUpdate
+//@ props C17
+//@ requires dc != nil && deployment != nil && deployment.Spec.Replicas != nil && wfRSs(oldRSs)
+//@ requires separate: backing(allRSs) != backing(oldRSs)
+//@ requires forall k :: 0 <= k && k < len(allRSs) ==> allRSs[k] != nil
+//@ ensures accounted: result1 == nil ==> $scaledDown - old($scaledDown) == result0
+//@ ensures keeps_min_available: result0 <= imax(0, old(sumAvailable(allRSs)) - (old(R(deployment)) - old(unavailOf(deployment, &dc.strategy))))
+//@ ensures nonneg: result0 >= 0
+//@ loop 1 invariant -1 <= rangeindex && rangeindex < len(oldRSs)
+//@ loop 1 invariant totalScaledDown == $scaledDown - atloop($scaledDown) && 0 <= totalScaledDown && totalScaledDown <= imax(totalScaleDownCount, 0)
+//@ loop 1 invariant wfRSs(oldRSs)
+
+//@ track (*DeploymentController).scaleReplicaSetAndRecordEvent as scale
+//@ track (*DeploymentController).cleanupUnhealthyReplicas as cleanup
+
+//@ func (*DeploymentController).reconcileNewReplicaSet
+//@ props C17
+//@ requires dc != nil && deployment != nil && deployment.Spec.Replicas != nil && newRS != nil && newRS.Spec.Replicas != nil
+//@ requires forall k :: 0 <= k && k < len(allRSs) && allRSs[k] != nil ==> allRSs[k].Spec.Replicas != nil
+//@ requires sane: R(deployment) >= 0 && *newRS.Spec.Replicas >= 0 && surgeOf(deployment, &dc.strategy) >= 0
+//@ requires old_hold_reserve: sumReplicas(allRSs) - *newRS.Spec.Replicas >= R(deployment) - imax(rsLimit(dc.strategy.Partition, R(deployment)), *newRS.Spec.Replicas)
+//@ ensures one_scale: #scale <= 1 && (#scale == 1 ==> #scale.arg2 == newRS)
+//@ ensures within_partition: #scale == 1 && old(*newRS.Spec.Replicas) < old(R(deployment)) ==> #scale.arg3 <= imax(old(*newRS.Spec.Replicas), old(rsLimit(dc.strategy.Partition, R(deployment))))
+//@ ensures within_surge: #scale == 1 && old(*newRS.Spec.Replicas) < old(R(deployment)) ==> (#scale.arg3 - old(*newRS.Spec.Replicas)) + old(sumReplicas(allRSs)) <= imax(old(sumReplicas(allRSs)), old(R(deployment)) + old(surgeOf(deployment, &dc.strategy)))
+//@ ensures never_shrinks_below_target: #scale == 1 && old(*newRS.Spec.Replicas) < old(R(deployment)) ==> #scale.arg3 >= old(*newRS.Spec.Replicas)
+
+//@ func (*DeploymentController).scaleUpOldReplicaSets
+//@ props C17
+//@ requires dc != nil && deployment != nil && deployment.Spec.Replicas != nil && wfRSs(oldRSs)
+//@ ensures restores_reserve: #scale <= 1 && (#scale == 1 ==> old(scaledUpCount) > 0 && $scaledDown - old($scaledDown) == ite(#scale.ret2 == nil, 0 - old(scaledUpCount), 0))
+//@ ensures noop: old(scaledUpCount) <= 0 ==> #scale == 0
+//@ ensures never_down: $scaledDown - old($scaledDown) <= 0 && $scaledDown - old($scaledDown) >= 0 - imax(old(scaledUpCount), 0)
+
+//@ func (*DeploymentController).reconcileOldReplicaSets
+//@ props C17
+//@ requires dc != nil && deployment != nil && deployment.Spec.Replicas != nil && newRS != nil && newRS.Spec.Replicas != nil
+//@ requires wfRSs(oldRSs) && (forall k :: 0 <= k && k < len(allRSs) ==> allRSs[k] != nil && allRSs[k].Spec.Replicas != nil)
+//@ ensures cleanup_budget_within_reserve: #cleanup == 1 ==> #cleanup.arg4 <= imax(0, old(oldLimit(oldRSs, newRS, deployment, dc.strategy.Partition))) && #cleanup.arg4 <= imax(0, old(sumReplicas(allRSs)) - (old(R(deployment)) - old(unavailOf(deployment, &dc.strategy))) - (old(*newRS.Spec.Replicas) - old(newRS.Status.AvailableReplicas)))
+//@ ensures no_scale_down_without_budget: #cleanup == 0 ==> $scaledDown - old($scaledDown) <= 0
+//@ ensures restores_when_below: old(oldLimit(oldRSs, newRS, deployment, dc.strategy.Partition)) <= 0 ==> $scaledDown - old($scaledDown) <= 0
